@@ -490,7 +490,8 @@ RE_ENTRY = ['lookup', 'lookup1', 'queryAdapter', 'adapter_hook', 'lookupAll', 's
             'names']
 RE_POINT = ['uncached-before', 'uncached-after', 'lazy-required', 'providedBy-descriptor', 'factory', 'provided-hash',
             'value-destructor', 'name-hash', 'required-key-eq', 'unhashable-provided-error-path',
-            'super-subclass-computed-self', 'uncached-raises-error-path', 'generation-property']
+            'super-subclass-computed-self', 'uncached-raises-error-path', 'generation-property',
+            'cached-factory-destructor']
 RE_MUT = ['register-more-specific', 'unregister', 'subscribe', 'changed-only', 'rebase', 'register-then-lookup-other-key']
 RE_WARM = ['cold', 'warm-other-key', 'warm-same-key-then-changed']
 
@@ -555,6 +556,10 @@ def run_reent(program):
         if mut != 0 or warm != 0:
             return None
         return _reent_uncached_raises(flav, en)
+    if pt == 'cached-factory-destructor':
+        if mut != 0 or warm != 0:
+            return None
+        return _reent_destructor(flav, en)
 
     state = dict(fired=False, witness=[], hook=None, inner=None)
 
@@ -1034,6 +1039,99 @@ def _reent_uncached_raises(flav, en):
     reg._v_lookup.changed(None)
     gc.collect()
     out['refcount_growth'] = (sys.getrefcount(probe) - base) * 5     # any surviving reference is a leak
+    return out
+
+
+def _reent_destructor(flav, en):
+    """A factory whose last reference is held by the lookup cache has a destructor that repeats the lookup.  The
+    registration is replaced; changed() - the last step of the mutator - releases the caches, the destructor runs from
+    inside that release and must be answered from the *new* state (never from the cache being thrown away)."""
+    import gc
+    from zope.interface import Interface, implementer, providedBy
+    from zope.interface.adapter import AdapterRegistry, VerifyingAdapterRegistry
+    from zope.interface.interface import InterfaceClass
+    IR = InterfaceClass('IR', (Interface,), {}, __module__='vp_reent')
+    IP = InterfaceClass('IP', (Interface,), {}, __module__='vp_reent')
+    K = implementer(IR)(type('K', (object,), {}))
+    ob = K()
+    spec = providedBy(ob)
+    cls = AdapterRegistry if flav == 0 else VerifyingAdapterRegistry
+    seen = []
+
+    def call(reg):
+        if en == 'lookup':
+            return _tagval(reg.lookup([spec], IP, ''))
+        if en == 'lookup1':
+            return _tagval(reg.lookup1(spec, IP, ''))
+        if en == 'queryAdapter':
+            return _tagval(reg.queryAdapter(ob, IP, ''))
+        if en == 'adapter_hook':
+            return _tagval(reg.adapter_hook(IP, ob, ''))
+        if en == 'lookupAll':
+            return sorted([n, _tagval(v)] for n, v in reg.lookupAll([spec], IP))
+        if en == 'names':
+            return sorted(reg.names([spec], IP))
+        if en == 'subscriptions':
+            return _tagval(list(reg.subscriptions([spec], IP)))
+        if en == 'queryMultiAdapter':
+            return _tagval(reg.queryMultiAdapter([ob, ob], IP, ''))
+        return _tagval(list(reg.subscribers([ob], IP)))
+
+    class DyingFac(_Fac):
+        reg = None
+
+        def __del__(self):
+            try:
+                seen.append(call(self.reg))
+            except Exception as e:   # noqa
+                seen.append(_exc(e))
+
+    kind = 'multi' if en == 'queryMultiAdapter' else ('subs' if en in ('subscriptions', 'subscribers') else 'single')
+
+    def populate(reg, fac):
+        # exactly one registration, so that after its replacement the lookup cache holds the last reference
+        if kind == 'single':
+            reg.register([IR], IP, '', fac)
+        elif kind == 'multi':
+            reg.register([IR, IR], IP, '', fac)
+        else:
+            reg.subscribe([IR], IP, fac)
+
+    twin = cls()
+    if kind != 'subs':
+        populate(twin, _Fac('new'))
+    after = call(twin)
+    reg = cls()
+    old = DyingFac('old')
+    old.reg = reg
+    populate(reg, old)
+    warm = call(reg)
+    del old
+    gc.collect()
+    new = _Fac('new')
+    out = dict(before=after, after=after, fired=True, witness_dirty=[], refcount_growth=0, exception=None)
+    try:
+        # one mutation: the registry drops its reference, changed() - its last step - releases the cache holding the last one
+        if kind == 'single':
+            reg.register([IR], IP, '', new)
+        elif kind == 'multi':
+            reg.register([IR, IR], IP, '', new)
+        else:
+            reg.unsubscribe([IR], IP)
+        gc.collect()
+    except Exception as e:   # noqa
+        out['exception'] = type(e).__name__ + ': ' + str(e)[:80]
+    if not seen:
+        return None          # the factory did not die inside the mutator (nothing to check on this entry point)
+    out['result'] = seen[-1]
+    out['warm'] = warm
+    try:
+        out['second'] = call(reg)
+    except Exception as e:   # noqa
+        out['second'] = _exc(e)
+    junk = [dict() for _ in range(50)]      # noqa: F841 - touch the dict free list: a corrupted one crashes here
+    del junk
+    gc.collect()
     return out
 
 
